@@ -151,6 +151,7 @@ class Scheduler(object):
         self.pos = 0
         self.delivered = []          # terminal events delivered (for dup)
         self.did_rerun = 0
+        self.resumes = 0
         self.order_started = []
         self.order_done = []
         self.world = None
@@ -357,7 +358,8 @@ class Scheduler(object):
         w = self.world
         if w.c is None:
             return False
-        if w.status == "paused" and w.pause_req and self.profile.get("resume_at_rest", True):
+        if w.status == "paused" and self.profile.get("resume_at_rest", True) and self.resumes < 4:
+            self.resumes += 1
             self.do(["request", self.K.choice(["resuming", "running"], "ops", "resume", self.pos)])
             n = self.do(["dispatch"])
             g = 0
